@@ -284,6 +284,13 @@ def member_table(rep, idx, sig, table):
         if not ok_guard:
             detail.append(f"present under {[ir.show(x) + ('' if p else ' (negated)') for x, p in got_conds]}, expected {guard or 'always'}")
         wrong = None
+        if not ok_shape and ok_flow:
+            fs, es = resolve(sh), resolve(ir.parse(shape))
+            clamp = fs[0] == 'call' and fs[1] in (('name', 'max'), ('name', 'min')) and es in fs[2] and any(a_[0] == 'const' for a_ in fs[2])
+            shifted = fs[0] == 'lin' and len(fs[2]) == 1 and fs[2][0][0] == es and (fs[1] != 0 or fs[2][0][1] != 1)
+            if clamp or shifted:
+                wrong = (f"the member is declared {ir.show(fs)} wide, which differs from the parameter {ir.show(es)} for accepted values "
+                         "(a clamped or shifted width): member widths must follow the parameters")
         if not ok_flow:
             wrong = "wrong direction"
         elif not ok_guard and presence_witness is not None:
